@@ -115,7 +115,13 @@ func runC19(seed int64, n int, dir string, tier string) *Report {
 		if g.Chance(0.5) {
 			fam = idFamilies[gen.Pick(g, []int{0, 1, 1, 1, 2, 2, 3, 4, 5, 6, 7, 8})]
 		}
+		if h < 2*len(idFamilies) && h%2 == 0 {
+			fam = idFamilies[h/2] // every family at least once in every run, whatever the seed
+		}
 		nd := 2 + g.Int(3)
+		if fam != nil && h < 2*len(idFamilies) && nd < len(fam) && nd < 4 {
+			nd = min(len(fam), 4)
+		}
 		for k := 0; k < nd; k++ {
 			d := sbom.NewDocument()
 			id := gen.Pick(g, hostileIDs)
@@ -179,6 +185,9 @@ func runC19(seed int64, n int, dir string, tier string) *Report {
 		initState := gen.Pick(g, []int{0, 0, 3, 3, 3, 1, 2})
 		if asNobody && g.Chance(0.3) {
 			initState = 4
+		}
+		if h < 2*len(idFamilies) && h%2 == 0 {
+			initState = []int{0, 3}[(h/2)%2] // the histories that walk through the identifier families run on a usable store
 		}
 		sdir := filepath.Join(base, "store")
 		switch initState {
